@@ -280,7 +280,7 @@ fn case(rng: &mut Rng, rep: &mut Report, case_no: u64, dump: bool) {
 pub fn run(args: &Args) -> i32 {
     let mut rep = Report::new(args);
     let dump = args.has("--dump");
-    let n = args.count(3000, 60_000);
+    let n = args.count(4_800, 80_000);
     let range: Vec<u64> = match args.case {
         Some(c) => vec![c],
         None => (0..n).collect(),
